@@ -184,11 +184,22 @@ func (it *interp) execCall(s *state, f frameID, fn *ssa.Function, x *ssa.Call) *
 		// unmodelled external callee
 		it.oblige(fn, x, "EXT", shortName(name), false, func() string { return "call to an external function that is not in the stdlib model" })
 	}
-	// dynamic call through a closure value created in this frame chain: inline it
-	if !cc.IsInvoke() {
-		if mc, ok := cc.Value.(*ssa.MakeClosure); ok {
-			if cf, ok := mc.Fn.(*ssa.Function); ok && len(cf.Blocks) > 0 {
-				return it.inline(s, f, fn, x, cf, mc.Bindings)
+	// dynamic call through a closure value created in an analysed frame: expand it in place
+	if !cc.IsInvoke() && len(s.ds) > 0 {
+		var cr *closRef
+		same := true
+		for i, d := range s.ds {
+			r := it.repOf(d, f, cc.Value)
+			if i == 0 {
+				cr = r.clos
+			} else if (r.clos == nil) != (cr == nil) || (cr != nil && *r.clos != *cr) {
+				same = false
+			}
+		}
+		if same && cr != nil {
+			if cf, ok := cr.mc.Fn.(*ssa.Function); ok && len(cf.Blocks) > 0 {
+				it.inlinedClosures[cf] = true
+				return it.inlineClosure(s, f, fn, x, cf, cr)
 			}
 		}
 	}
@@ -218,7 +229,20 @@ func shortName(n string) string {
 }
 
 // inline interprets callee in place.
+// inlineClosure expands a closure whose captured variables are evaluated in the frame that
+// created it.
+func (it *interp) inlineClosure(s *state, f frameID, fn *ssa.Function, x *ssa.Call, callee *ssa.Function, cr *closRef) *state {
+	it.bindFrame = &cr.f
+	defer func() { it.bindFrame = nil }()
+	return it.inline(s, f, fn, x, callee, cr.mc.Bindings)
+}
+
 func (it *interp) inline(s *state, f frameID, fn *ssa.Function, x *ssa.Call, callee *ssa.Function, bindings []ssa.Value) *state {
+	bf := f
+	if it.bindFrame != nil {
+		bf = *it.bindFrame
+		it.bindFrame = nil
+	}
 	if it.finfo[f].depth >= it.maxDepth {
 		it.oblige(fn, x, "EXT", "inline depth exceeded: "+core.FuncName(callee), false, func() string { return "call chain deeper than the expansion bound" })
 		for _, d := range s.ds {
@@ -250,7 +274,7 @@ func (it *interp) inline(s *state, f frameID, fn *ssa.Function, x *ssa.Call, cal
 		}
 		for i, fv := range callee.FreeVars {
 			if i < len(bindings) {
-				d.vals[valKey{cf, fv}] = it.repOf(d, f, bindings[i])
+				d.vals[valKey{cf, fv}] = it.repOf(d, bf, bindings[i])
 			}
 		}
 	}
@@ -269,8 +293,13 @@ func (it *interp) inline(s *state, f frameID, fn *ssa.Function, x *ssa.Call, cal
 		d.rets = nil
 		out.ds = append(out.ds, d)
 	}
-	if len(out.ds) > it.K {
+	// summarise: callee-internal path distinctions rarely matter to the caller; keep at most
+	// retCap disjuncts (reduce never merges an error return with a success return if avoidable)
+	if len(out.ds) > it.retCap {
+		saveK := it.K
+		it.K = it.retCap
 		out = it.reduce(out)
+		it.K = saveK
 	}
 	return out
 }
